@@ -7,6 +7,7 @@ import (
 	"sort"
 	"strings"
 	"testing"
+	"unicode/utf8"
 
 	"pgregory.net/rapid"
 	"tags.cncf.io/container-device-interface/pkg/cdi"
@@ -196,7 +197,10 @@ func checkC15Parse(m map[string]string) (msg string) {
 	return msg
 }
 
-var c15Chars = []rune{'a', 'Z', '0', '_', '-', '.', '/', ':', '=', ' ', 'é', ',', '\x00', '+'}
+// single characters, and lone bytes that are not UTF-8 (read as Latin-1 they would be letters, a sign, a digit-like symbol)
+var c15Chars = []string{"a", "Z", "0", "_", "-", ".", "/", ":", "=", " ", "é", ",", "\x00", "+", "\xe9", "\xb5", "\xc4", "\xff", "\xb2", "\x80"}
+
+func joinStrs(l []string) string { return strings.Join(l, "") }
 
 func genC15Str(t *rapid.T, label string) string {
 	switch rapid.IntRange(0, 5).Draw(t, label+"Kind") {
@@ -205,18 +209,18 @@ func genC15Str(t *rapid.T, label string) string {
 	case 1:
 		// lengths around the 63-character limit, every class at the edges
 		n := rapid.IntRange(26, 36).Draw(t, label+"Len")
-		first := string(rapid.SampledFrom(c15Chars).Draw(t, label+"First"))
-		last := string(rapid.SampledFrom(c15Chars).Draw(t, label+"Last"))
+		first := rapid.SampledFrom(c15Chars).Draw(t, label+"First")
+		last := rapid.SampledFrom(c15Chars).Draw(t, label+"Last")
 		mid := strings.Repeat(string(rapid.SampledFrom([]rune{'a', '.', '-', '_', '0'}).Draw(t, label+"Fill")), n)
 		if rapid.Bool().Draw(t, label+"Poison") {
 			i := rapid.IntRange(0, n-1).Draw(t, label+"At")
-			mid = mid[:i] + string(rapid.SampledFrom(c15Chars).Draw(t, label+"Mid")) + mid[i+1:]
+			mid = mid[:i] + rapid.SampledFrom(c15Chars).Draw(t, label+"Mid") + mid[i+1:]
 		}
 		return first + mid + last
 	case 2:
 		return ""
 	default:
-		return string(rapid.SliceOfN(rapid.SampledFrom(c15Chars), 0, 5).Draw(t, label))
+		return joinStrs(rapid.SliceOfN(rapid.SampledFrom(c15Chars), 0, 5).Draw(t, label))
 	}
 }
 
@@ -238,7 +242,7 @@ func genC15(t *rapid.T) c15Case {
 	for i := 0; i < nd; i++ {
 		if rapid.IntRange(0, 5).Draw(t, fmt.Sprintf("dev%dBad", i)) == 0 {
 			c.Devices = append(c.Devices, rapid.OneOf(rapid.Just(""), rapid.Just("a/b=c,d"), rapid.Just("a/b=c,d/e=f"), rapid.Just("a/b=c,d/e=f,g/h=i"), rapid.Just("a/b=c,"), rapid.Just("a/b"), rapid.Just("a=b"),
-				rapid.Map(rapid.SliceOfN(rapid.SampledFrom(c15Chars), 0, 6), func(r []rune) string { return string(r) })).Draw(t, fmt.Sprintf("dev%d", i)))
+				rapid.Map(rapid.SliceOfN(rapid.SampledFrom(c15Chars), 0, 6), joinStrs)).Draw(t, fmt.Sprintf("dev%d", i)))
 		} else {
 			c.Devices = append(c.Devices, genQName.Draw(t, fmt.Sprintf("dev%d", i)))
 		}
@@ -303,6 +307,19 @@ func (c c15Case) labels() []string {
 	}
 	if strings.Contains(c.ID, "/") {
 		l = append(l, "slash-in-id")
+	}
+	if n := len(name); n >= 2 && (name[0] >= 0x80 || name[n-1] >= 0x80) && c.Plugin != "" && c.ID != "" {
+		// valid but for a byte >= 0x80 at one end
+		b := []byte(name)
+		if b[0] >= 0x80 {
+			b[0] = 'a'
+		}
+		if b[n-1] >= 0x80 {
+			b[n-1] = 'a'
+		}
+		if utf8.ValidString(name) == false && modelK8sName(string(b)) {
+			l = append(l, "valid-but-for-a-non-utf8-byte-at-an-end")
+		}
 	}
 	return l
 }
